@@ -31,6 +31,8 @@ def build_case(cid, rng):
     LAST = ("*b + " + extra[1]) if extra else "*b"
     OPT = ", ?Send" if no_send else ""
     links = []   # kind per link
+    gen1 = rng.random() < 0.35
+    gen_used = []
     kinds = ["fn", "fn", "mod", "leaf_trait", "inversion", "concrete"] + (["impl_future"] if (is_async and (with_lt or not extra)) else [])
     L, GT = [], []
     aw = ".await" if is_async else ""
@@ -45,6 +47,14 @@ def build_case(cid, rng):
         call_next_g = ("g%d(deps, *b + %d%s)%s" % (i + 1, i, SA, aw)) if not last else LAST
         nbox = rng.randint(1, 3)
         boxes = " ".join("let b = ::std::boxed::Box::new(x + %d);" % k for k in range(nbox))
+        # the first link may carry a type parameter of its own (lifted to the generated trait: `trait L1<T>`)
+        gen_here = i == 1 and gen1 and kind in ("fn", "mod")
+        TB = "T: ::core::convert::Into<u64> + ::core::marker::Send + 'static"
+        Gi = (("<'a, %s>" % TB) if with_lt else ("<%s>" % TB)) if gen_here else G
+        SPi = (", t: T" + SP) if gen_here else SP
+        if gen_here:
+            boxes = "let x = x + t.into(); " + boxes
+            gen_used.append(True)
         # a statically delegated helper with a mock option (inert in this build) that returns `impl Iterator`
         use_iter = (not is_async) and rng.random() < 0.4
         if use_iter:
@@ -60,9 +70,9 @@ def build_case(cid, rng):
         if use_iter:
             bound = "(%s + It%d)" % (bound, i)
         if kind == "fn":
-            L.append("#[::entrait::entrait(pub L%d%s)] /*@inv%d*/\n%sfn l%d%s(deps: &%s, x: u64%s) -> u64 %s" % (i, OPT, i, asy, i, G, bound, SP, body_t))
+            L.append("#[::entrait::entrait(pub L%d%s)] /*@inv%d*/\n%sfn l%d%s(deps: &%s, x: u64%s) -> u64 %s" % (i, OPT, i, asy, i, Gi, bound, SPi, body_t))
         elif kind == "mod":
-            L.append("#[::entrait::entrait(pub L%d%s)] /*@inv%d*/\npub mod lm%d { use super::*; pub %sfn l%d%s(deps: &%s, x: u64%s) -> u64 %s }" % (i, OPT, i, i, asy, i, G, bound, SP, body_t))
+            L.append("#[::entrait::entrait(pub L%d%s)] /*@inv%d*/\npub mod lm%d { use super::*; pub %sfn l%d%s(deps: &%s, x: u64%s) -> u64 %s }" % (i, OPT, i, i, asy, i, Gi, bound, SPi, body_t))
         elif kind == "concrete":
             # concrete dependency: the generated leaf trait is itself entraited (nested expansion) for Impl<T>
             L.append("#[::entrait::entrait(pub L%d%s)] /*@inv%d*/\n%sfn l%d%s(deps: &App, x: u64%s) -> u64 { let deps2 = ::entrait::Impl::new(*deps); let deps = &deps2; %s%s %s }" % (
@@ -86,8 +96,10 @@ def build_case(cid, rng):
         if kind in ("leaf_trait", "concrete", "impl_future"):
             GT.append("%sfn g%d<%sD>(deps: &D, x: u64%s) -> u64 { let deps2 = ::entrait::Impl::new(App); let deps = &deps2; %s%s %s }" % (asy, i, "'a, " if with_lt else "", SP, boxes_g, yld, call_next_g))
         else:
-            GT.append("%sfn g%d<%sD>(deps: &D, x: u64%s) -> u64 %s" % (asy, i, "'a, " if with_lt else "", SP, body_g))
+            GT.append("%sfn g%d<%s%sD>(deps: &D, x: u64%s) -> u64 %s" % (asy, i, "'a, " if with_lt else "", (TB + ", ") if gen_here else "", SPi, body_g))
     wrap = (lambda c: "::vrt::block_on(%s)" % c) if is_async else (lambda c: c)
+    if gen_used:
+        ARG = ", 7u8" + ARG
     D = ["#[derive(Clone, Copy)] pub struct App;"] + L + GT + ["pub fn run() {",
          "    let app = ::entrait::Impl::new(App);",
          "    match ::std::env::var(\"C14_MODE\").ok().as_deref() {",
@@ -108,7 +120,7 @@ def build_case(cid, rng):
          '    ::vrt::fact("trait_allocs", a1 - a0); ::vrt::fact("direct_allocs", a2 - a1); ::vrt::fact("trait_allocs_again", a3 - a2);',
          '    ::vrt::fact("trait_result", r1); ::vrt::fact("direct_result", r2);',
          "}"]
-    return Case(cid, "\n".join(D) + "\n", meta={"depth": depth, "async": is_async, "links": links, "explicit_lifetime": with_lt, "extra_param": (extra[0] if extra else None), "no_send": no_send,
+    return Case(cid, "\n".join(D) + "\n", meta={"depth": depth, "async": is_async, "links": links, "explicit_lifetime": with_lt, "extra_param": (extra[0] if extra else None), "generic_first_link": bool(gen_used), "no_send": no_send,
                                                 "nontrivial": is_async or depth >= 2})
 
 
